@@ -158,6 +158,124 @@ impl C09 {
         }
     }
 
+    /// Staggered exit: the same holder leaves in two instalments that land in two different batches and
+    /// withdraws once when only the first batch has matured and once after the second has: every recorded claim
+    /// must be paid (a claim is "worth" what UnbondRequests reported for it right after the unbond).
+    fn staggered_exit(&self, w: &World, s: &Snap, rng: &mut Rng, out: &mut Out) {
+        let (epoch, unb) = (s.params.epoch_period, s.params.unbonding_period);
+        if s.params.paused.unwrap_or(false) || s.total_delegated == 0 {
+            return;
+        }
+        if unb < epoch + 1 || unb > 1_000_000_000 {
+            out.count("c09.staggered_not_applicable");
+            return;
+        }
+        let mut cands: Vec<(String, Tok, u128)> = vec![];
+        for tok in [Tok::B, Tok::St] {
+            let (pool, claims) = if tok == Tok::B { (s.pool_b, s.claims_b()) } else { (s.pool_s, s.claims_s()) };
+            if pool == 0 && claims > 0 {
+                continue;
+            }
+            for (a, b) in s.tok(tok).balances.iter() {
+                if *b >= 3 && a.as_str() != HUB && USERS.contains(&a.as_str()) {
+                    cands.push((a.clone(), tok, *b));
+                }
+            }
+        }
+        if cands.is_empty() {
+            return;
+        }
+        let (holder, tok, bal) = rng.pick(&cands).clone();
+        let mut c = w.clone();
+        let a1 = rng.range128(1, bal - 2);
+        let a3 = rng.range128(1, bal - 1 - a1);
+        let claim_of = |s: &Snap, batch: u64| -> (u128, u128) { s.requests.get(&holder).and_then(|r| r.iter().find(|x| x.0 == batch).map(|x| (x.1, x.2))).unwrap_or((0, 0)) };
+        // first instalment
+        let k = s.batch_id;
+        if !(Op::Unbond { user: holder.clone(), tok, amount: a1, owner: None }).apply(&mut c).ok() {
+            return; // judged by the plain exit dry-run
+        }
+        let mut s1 = snap::take(&c);
+        if s1.batch_id == k {
+            c.advance(epoch + 1);
+            if !(Op::Unbond { user: holder.clone(), tok, amount: 1, owner: None }).apply(&mut c).ok() {
+                return;
+            }
+            s1 = snap::take(&c);
+            if s1.batch_id == k {
+                return;
+            }
+        }
+        let t1 = match s1.hist(k) {
+            Some(h) => h.time,
+            None => return,
+        };
+        let claim_k = claim_of(&s1, k);
+        // second instalment, one epoch later, lands in batch k+1 and closes it
+        c.advance(epoch + 1);
+        if !(Op::Unbond { user: holder.clone(), tok, amount: a3, owner: None }).apply(&mut c).ok() {
+            return;
+        }
+        let s2 = snap::take(&c);
+        if s2.batch_id != k + 2 {
+            return;
+        }
+        let claim_k1 = claim_of(&s2, k + 1);
+        // withdraw exactly when batch k matures (batch k+1 is still unbonding)
+        let now = c.time;
+        if t1 + unb < now {
+            return;
+        }
+        c.advance(t1 + unb - now);
+        let b0 = c.bal(&holder, USEI);
+        let r1 = Op::Withdraw { user: holder.clone() }.apply(&mut c);
+        let s3 = snap::take(&c);
+        let paid1 = c.bal(&holder, USEI) - b0;
+        out.count("c09.staggered_exits");
+        let value = |s: &Snap, batch: u64, cl: (u128, u128)| -> Option<u128> { s.hist(batch).filter(|h| h.released).map(|h| mul_rate(cl.0, h.bsei_withdraw) + mul_rate(cl.1, h.stsei_withdraw)) };
+        if r1.ok() {
+            if let Some(v) = value(&s3, k, claim_k) {
+                if paid1 < v {
+                    out.violation(P, "withdraw_after_unbonding", format!("staggered exit: {}'s claim {:?} in batch {} is worth {} but the first withdrawal paid {}", holder, claim_k, k, v, paid1));
+                    return;
+                }
+            }
+        }
+        // after batch k+1 has matured too, the second claim must be payable
+        c.advance(epoch + 1);
+        let b1 = c.bal(&holder, USEI);
+        let r2 = Op::Withdraw { user: holder.clone() }.apply(&mut c);
+        let mut s4 = snap::take(&c);
+        let paid2 = c.bal(&holder, USEI) - b1;
+        if !r2.ok() {
+            // let another claimant trigger the release so that the value of the claim becomes observable
+            let others: Vec<String> = s4.requests.keys().filter(|u| **u != holder).cloned().collect();
+            for o in others {
+                let _ = Op::Withdraw { user: o }.apply(&mut c);
+            }
+            s4 = snap::take(&c);
+        }
+        match value(&s4, k + 1, claim_k1) {
+            Some(v) if v >= 1 => {
+                let still_recorded = claim_of(&s4, k + 1) != (0, 0);
+                if !r2.ok() || paid2 < v {
+                    out.violation(
+                        P,
+                        "withdraw_after_unbonding",
+                        format!(
+                            "staggered exit: {} unbonded {} {:?} into batch {} (claim {:?}, worth {} after release) but the withdrawal after its unbonding period {} (paid {}; first withdrawal at the maturity of batch {} paid {}; claim still recorded: {})",
+                            holder, a3, tok, k + 1, claim_k1, v, if r2.ok() { "succeeded".to_string() } else { format!("failed: {}", r2.tx.as_ref().unwrap().err) }, paid2, k, paid1, still_recorded
+                        ),
+                    );
+                    return;
+                }
+                out.count("c09.staggered_second_claim_paid");
+            }
+            Some(_) => out.count("c09.staggered_second_claim_worthless"),
+            None => out.count("c09.staggered_undecidable"),
+        }
+    }
+
     fn paired_faults(&self, c: &Ctx, out: &mut Out) {
         // re-run the same operation from the same pre-state under every failure mode of the external contracts
         let mut base = c.w_pre.clone();
@@ -219,10 +337,12 @@ impl Monitor for C09 {
         if self.since_dry >= self.dry_every {
             self.since_dry = 0;
             self.exit_dry_run(c.w_post, c.post, rng, out);
+            self.staggered_exit(c.w_post, c.post, rng, out);
         }
     }
 
     fn on_end(&mut self, w: &World, s: &Snap, _cfg: &Cfg, rng: &mut Rng, out: &mut Out) {
         self.exit_dry_run(w, s, rng, out);
+        self.staggered_exit(w, s, rng, out);
     }
 }
